@@ -6,7 +6,9 @@ import (
 	"verif/harness/gen"
 )
 
-func init() { register("env", "envelope/key-cache/session histories on the real SDK (C01-C05,C07,C09,C10,C20)", runEnv) }
+func init() {
+	register("env", "envelope/key-cache/session histories on the real SDK (C01-C05,C07,C09,C10,C20)", runEnv)
+}
 
 const secNs = int64(1000000000)
 
@@ -44,7 +46,7 @@ func envPolicies() map[string]PolicyCfg {
 	p.CacheSessions, p.SessCap = true, 2
 	m["sesscache2"] = p
 	p = base
-	p.CacheSessions, p.SessCap, p.SessDur, p.SessPol = true, 1, 5 * secNs, "lru"
+	p.CacheSessions, p.SessCap, p.SessDur, p.SessPol = true, 1, 5*secNs, "lru"
 	m["sesscache1-exp"] = p
 	p = base
 	p.CacheIK, p.SharedIK, p.CacheSK = false, true, false
@@ -66,6 +68,8 @@ type envGen struct {
 	factory int
 	nextPl  int
 	keys    map[string][]int64 // key ids -> created stamps seen
+	suffix  string             // region suffix every factory of the case uses ("" = none)
+	idMuts  bool               // also mutate the parent key id of records
 }
 
 func (g *envGen) do(op EnvOp) EnvObs {
@@ -77,7 +81,12 @@ func (g *envGen) do(op EnvOp) EnvObs {
 
 func (g *envGen) newFactory() int {
 	p := g.pol
-	ob := g.do(EnvOp{K: "newfactory", Policy: &p, Svc: gen.H("svc"), Prod: gen.H("prod")})
+	op := EnvOp{K: "newfactory", Policy: &p, Svc: gen.H("svc"), Prod: gen.H("prod")}
+	if g.suffix != "" {
+		sx := gen.H(g.suffix)
+		op.Suffix = &sx
+	}
+	ob := g.do(op)
 	return ob.N
 }
 
@@ -110,6 +119,37 @@ func (g *envGen) faults(nmax int) [][2]any {
 func (g *envGen) randMuts() []Mut {
 	nrec := len(g.x.recs)
 	j := g.r.Intn(nrec)
+	if g.idMuts && g.r.Chance(1, 2) {
+		// parent key ids around the partition's own: empty, truncated anywhere, the un-suffixed id, another suffix, an extension
+		own := ""
+		if pm := g.x.recs[j].Key.ParentKeyMeta; pm != nil {
+			own = pm.ID
+		}
+		base := own
+		if g.suffix != "" && len(own) > len(g.suffix)+1 {
+			base = own[:len(own)-len(g.suffix)-1]
+		}
+		var id string
+		switch g.r.Intn(7) {
+		case 0:
+			id = ""
+		case 1:
+			id = own[:g.r.Intn(len(own)+1)]
+		case 2:
+			id = base
+		case 3:
+			id = base + "_eu-west-1"
+		case 4:
+			id = own + "x"
+		case 5:
+			if len(base) > 0 {
+				id = base[:len(base)-1]
+			}
+		default:
+			id = "_IK_"
+		}
+		return []Mut{{K: "parentid", ID: gen.H(id)}}
+	}
 	switch g.r.Intn(12) {
 	case 0:
 		return []Mut{{K: "mutdata", J: g.r.Intn(64)}}
@@ -144,6 +184,9 @@ func (g *envGen) latestKey(prefix string, part string) (string, int64, bool) {
 	if prefix == "_IK_" {
 		id = "_IK_" + part + "_svc_prod"
 	}
+	if g.suffix != "" {
+		id += "_" + g.suffix
+	}
 	r := g.x.ms.Latest(id)
 	if r == nil {
 		return "", 0, false
@@ -157,6 +200,13 @@ func genEnvCase(r *gen.Rand, cfgName string, mode string) *EnvCase {
 	x := newEnvExec(t0)
 	defer x.close()
 	g := &envGen{r: r, x: x, cs: cs, pol: envPolicies()[cfgName], keys: map[string][]int64{}}
+	if mode == "suffix" { // malformed records against factories whose metastore reports a region suffix
+		mode = "malformed"
+		g.idMuts = true
+		if r.Chance(3, 4) {
+			g.suffix = "us-west-2"
+		}
+	}
 	if mode == "leak" {
 		x.enableLeakScan()
 	}
@@ -166,7 +216,10 @@ func genEnvCase(r *gen.Rand, cfgName string, mode string) *EnvCase {
 	for i := 0; i < nfact; i++ {
 		facts = append(facts, g.newFactory())
 	}
-	type sh struct{ s, f int; part string }
+	type sh struct {
+		s, f int
+		part string
+	}
 	var sess []sh
 	openSession := func() {
 		f := gen.Pick(r, facts)
@@ -303,6 +356,10 @@ func genEnvCase(r *gen.Rand, cfgName string, mode string) *EnvCase {
 					hs = s
 				}
 			}
+			readFirst := r.Chance(1, 2)
+			if readFirst { // the first operation after the rotation is a read of an old-generation record
+				g.do(EnvOp{K: "decrypt", S: hs, Rec: old})
+			}
 			g.nextPl++
 			g.do(EnvOp{K: "encrypt", S: hs, Payload: g.nextPl})
 			g.do(EnvOp{K: "decrypt", S: hs, Rec: old})
@@ -311,6 +368,12 @@ func genEnvCase(r *gen.Rand, cfgName string, mode string) *EnvCase {
 			g.do(EnvOp{K: "decrypt", S: hs, Rec: len(x.recs) - 1})
 			g.nextPl++
 			g.do(EnvOp{K: "encrypt", S: hs, Payload: g.nextPl})
+			if readFirst && r.Chance(1, 2) { // and again one interval later: read the old record, then write
+				g.do(EnvOp{K: "advance", D: g.pol.RCI + 1})
+				g.do(EnvOp{K: "decrypt", S: hs, Rec: old})
+				g.nextPl++
+				g.do(EnvOp{K: "encrypt", S: hs, Payload: g.nextPl})
+			}
 		}
 	}
 	// every genuine record must still decrypt, in a live session of its partition and (refDecrypt) a fresh process
